@@ -107,3 +107,38 @@ Definition signer_use_table : list (use_key * use_class) := [
   (("smartcontract/service/wasmvm/wasmjit_runtime.go", "invokeJit", "GetSignatureAddresses"),
    UOutOfModel "WASM JIT: hands the list to the wasm runtime; WASM execution is outside every model here (the verif build links an error stub)")
 ].
+
+(** * Process-global state written during execution (Gen/MapRanges.v [process_globals]).
+    Key = (package dir, variable, type kind, the ";"-joined writing sites): a NEW package-level variable
+    written from a function of the scanned packages, or a new writer of a listed one, is not in this
+    table and [all_process_globals_classified] fails. *)
+Definition nat_ := "smartcontract/service/native/".
+Definition globals_table : list (global_key * global_class) := [
+  (("common/constants", "ONG_TOTAL_SUPPLY_V2", "basic",
+    nat_ ++ "ong.OngTotalSupplyV2:method:BigInt;" ++ nat_ ++ "ong.doApprove:method:LessThan;" ++ nat_ ++ "ong.doTransfer:method:LessThan;" ++ nat_ ++ "ong.doTransferFrom:method:LessThan"),
+   GConstAfterInit "a bigint.Int VALUE (third-party type, so the scanner cannot see that BigInt/LessThan have value receivers): read only");
+  (("events", "DefActorPublisher", "pointer",
+    "core/store/ledgerstore.(*LedgerStoreImp).submitBlock:method:Publish;smartcontract/event.PushChainEvent:method:Publish;smartcontract/event.PushEthSmartCodeEvent:method:Publish;smartcontract/event.PushSmartCodeEvent:method:Publish"),
+   GNotObservable "publishes finished results to subscribers (RPC/websocket); nil in the harness; nothing is read back into execution");
+  (("smartcontract/service/native", "Contracts", "map",
+    nat_ ++ "auth.Init:index;" ++ nat_ ++ "cross_chain/cross_chain_manager.InitCrossChain:index;" ++ nat_ ++ "cross_chain/header_sync.InitHeaderSync:index;" ++ nat_ ++ "cross_chain/lock_proxy.InitLockProxy:index;" ++ nat_ ++ "global_params.InitGlobalParams:index;" ++ nat_ ++ "governance.InitGovernance:index;" ++ nat_ ++ "ong.InitOng:index;" ++ nat_ ++ "ont.InitOnt:index;" ++ nat_ ++ "ontfs.InitFs:index;" ++ nat_ ++ "ontid.Init:index;" ++ nat_ ++ "system.InitSystem:index"),
+   GConstAfterInit "the registry of native contracts: each Init* is called once from native/init's init(), with constant keys, in every process");
+  (("smartcontract/service/neovm", "GAS_TABLE", "sync.Map",
+    "core/store/ledgerstore.refreshGlobalParam:method:Store"),
+   (* refreshed from chain state at the start of every executeBlock -- but only the entries whose on-chain
+      value exists and parses; the others keep what this process stored before: model A10 *)
+   GFinding "procstate:gas-table-keeps-unparsable-param");
+  (("smartcontract/service/wasmvm", "CodeCache", "pointer",
+    "smartcontract/service/wasmvm.invokeInterpreter:method:Add;smartcontract/service/wasmvm.invokeInterpreter:method:Get"),
+   GOutOfModel "LRU of compiled WASM modules keyed by contract address");
+  (("smartcontract/service/wasmvm", "nextServiceDataIdx", "basic",
+    "smartcontract/service/wasmvm.registerWasmVmService:incdec"),
+   GOutOfModel "handle counter of the WASM JIT bridge");
+  (("smartcontract/service/wasmvm", "serviceData", "map",
+    "smartcontract/service/wasmvm.registerWasmVmService:index;smartcontract/service/wasmvm.unregisterWasmVmService:delete"),
+   GOutOfModel "live WASM JIT services by handle; entries removed when the call returns");
+  (("vm/evm", "rStackPool", "struct", "vm/evm.returnRStack:method:Put"),
+   GNotObservable "sync.Pool of return stacks: returnRStack truncates to length 0 before Put, newReturnStack users only append");
+  (("vm/evm", "stackPool", "struct", "vm/evm.returnStack:method:Put"),
+   GNotObservable "sync.Pool of EVM stacks: returnStack truncates to length 0 before Put")
+].
